@@ -66,6 +66,9 @@ def check_sat(constraints: Iterable, timeout_s: float = DEFAULT_TIMEOUT_S, use_c
     return "unknown", "z3", ms, None
 
 
+_COVER_CACHE: dict = {}
+
+
 def model_str(m, limit=1200) -> str:
     if m is None:
         return ""
@@ -81,7 +84,11 @@ def prove(name: str, hyps: Iterable, goal, *, timeout_s: float = DEFAULT_TIMEOUT
           signature: str = "") -> tuple[Ob, Optional[z3.ModelRef]]:
     hyps = list(hyps)
     if cover:
-        r, be, ms, _ = check_sat(hyps, timeout_s)
+        # vacuity guard: the hypotheses alone must be satisfiable.  Obligations of one path share their hypotheses: cached.
+        key = tuple(sorted(h.get_id() for h in hyps if z3.is_expr(h)))
+        if key not in _COVER_CACHE:
+            _COVER_CACHE[key] = check_sat(hyps, timeout_s)[:3]
+        r, be, ms = _COVER_CACHE[key]
         if r == "unsat":
             return Ob(name, FAULT, be, ms, "vacuous: hypotheses unsatisfiable", signature), None
     r, be, ms, m = check_sat(hyps + [z3.Not(goal)], timeout_s)
